@@ -6,7 +6,28 @@ EPS = 1e-9
 _C = None
 
 
+OVERRIDES = {}
+
+
+def set_overrides(ov):
+    """Scalar settings of the parameter file the current case runs with (the configured maxima follow them)."""
+    global OVERRIDES
+    OVERRIDES = dict(ov or {})
+
+
 def consts():
+    base = _consts()
+    if not OVERRIDES:
+        return base
+    c = dict(base)
+    if "coulomb_cutoff1" in OVERRIDES:
+        c["coulomb_max"] = 244.12 / (30.0 * float(OVERRIDES["coulomb_cutoff1"]))
+    if "sidechain_interaction" in OVERRIDES:
+        c["hb_max"] = float(OVERRIDES["sidechain_interaction"])
+    return c
+
+
+def _consts():
     global _C
     if _C is None:
         cfg = util.parse_cfg()
@@ -165,7 +186,7 @@ def check_conformation(name, conf, viol, counts, classes):
             near = 0
             for i in ions:
                 d2 = sum((g["center"][k] - i["center"][k]) ** 2 for k in range(3))
-                if d2 < 9.999 ** 2:
+                if d2 < (float(OVERRIDES.get("coulomb_cutoff2", 10.0)) - 0.001) ** 2:
                     near += 1
             if len(keys) < near and near - len(keys) >= 1 and len(set(keys)) == len(keys):
                 viol.append({"cls": "ion-determinants-folded", "msg": "%s: %s has %d ions within the Coulomb range but %d ion determinant(s)" % (
